@@ -157,6 +157,7 @@ func (s *c19Sys) Step(hist []c19Ev) (string, core.Verdict) {
 
 func checkC19(c *core.Ctx) {
 	defer sweepC19(c)
+	defer extremeLabelsC19(c)
 	defer producedC19(c)
 	defer sweepC19Totals(c)
 	defer soakC19(c)
